@@ -2,7 +2,9 @@ package loader
 
 import (
 	"encoding/csv"
+	"errors"
 	"fmt"
+	stdio "io"
 	"os"
 	"strings"
 
@@ -41,9 +43,13 @@ func CSVtoNumpyMulti(csvReader *csv.Reader, tbk io.TimeBucketKey, cvm *CSVMetada
 	var linesRead int
 	for i := 0; i < chunkSize; i++ {
 		row, err2 := csvReader.Read()
-		if err2 != nil {
+		if errors.Is(err2, stdio.EOF) {
 			endReached = true
 			break
+		}
+		if err2 != nil {
+			// a malformed row (wrong number of fields, bad quoting) is an error, not the end of the file
+			return nil, false, fmt.Errorf("read csv row: %w", err2)
 		}
 		csvChunk = append(csvChunk, row)
 		linesRead++
@@ -224,7 +230,7 @@ func convertCSVtoCSM(tbk io.TimeBucketKey, cvm *CSVMetadata, csvDataChunk [][]st
 	epochCol, nanosCol := readTimeColumns(csvDataChunk, cvm.ColumnIndex, cvm.Config)
 	if epochCol == nil {
 		log.Error("Error building time columns from csv data")
-		return
+		return nil, errors.New("error building time columns from csv data")
 	}
 
 	csmInit := io.NewColumnSeriesMap()
